@@ -10,7 +10,7 @@ from ..core import Violation, Skip
 
 @st.composite
 def history(draw, dims=(1, 2), pmin=1, pmax=3, n0max=3, max_steps=3, max_levels=4, disparities=(None, 1, 2),
-            truncate=None, bdspecs_mode="any", mult_prob=0.15, containers=("set", "list", "tuple")):
+            truncate=None, bdspecs_mode="any", mult_prob=0.15, containers=("set", "list", "tuple", "frozenset", "live")):
     dim = draw(st.sampled_from(dims))
     if dim == 3:
         pmax = min(pmax, 2)
@@ -26,7 +26,10 @@ def history(draw, dims=(1, 2), pmin=1, pmax=3, n0max=3, max_steps=3, max_levels=
             marks = []
             for _ in range(nlv):
                 lvsel = draw(st.integers(0, 7))
-                cells = [draw(st.integers(0, 63)) for _ in range(draw(st.integers(1, 4)))]
+                if draw(st.integers(0, 5)) == 0:
+                    cells = "all"       # every active cell of the level
+                else:
+                    cells = [draw(st.integers(0, 63)) for _ in range(draw(st.integers(1, 4)))]
                 marks.append([lvsel, cells])
             steps.append({"kind": "refine", "marks": marks, "container": draw(st.sampled_from(containers))})
         else:
@@ -56,8 +59,23 @@ def history(draw, dims=(1, 2), pmin=1, pmax=3, n0max=3, max_steps=3, max_levels=
     return spec
 
 
-def _container(kind, cells):
+def _container(kind, cells, hs=None, level=None, info=None):
+    """The marks of one level in the requested container type.  'live': the very set object the documented accessor
+    hs.active_cells(level) returns, when the marks are exactly the active cells of that level (a caller refining a
+    whole level passes it on unchanged); a fresh set otherwise."""
     cells = [tuple(c) for c in cells]
+    if kind == "live":
+        if hs is not None:
+            live = hs.active_cells(level)
+            if isinstance(live, (set, frozenset)) and set(live) == set(cells):
+                if info is not None:
+                    info["containers"].add("live")
+                return live
+        return set(cells)
+    if info is not None:
+        info["containers"].add(kind)
+    if kind == "frozenset":
+        return frozenset(cells)
     if kind == "set":
         return set(cells)
     if kind == "tuple":
@@ -75,7 +93,7 @@ def resolve_marks(ref, marks, max_levels):
     for lvsel, cellsel in marks:
         l = levels[lvsel % len(levels)]
         cells = sorted(ref.active[l])
-        chosen = sorted(set(cells[c % len(cells)] for c in cellsel))
+        chosen = list(cells) if cellsel == "all" else sorted(set(cells[c % len(cells)] for c in cellsel))
         out.setdefault(l, [])
         for c in chosen:
             if c not in out[l]:
@@ -129,17 +147,15 @@ def replay(spec, ctx, on_step=None, upto=None):
                     marks[l] = keep
             if not marks:
                 continue
-            arg = {l: _container(step.get("container", "set"), cs) for l, cs in marks.items()}
+            arg = {l: _container(step.get("container", "set"), cs, hs, l, info) for l, cs in marks.items()}
             returned = ctx.sut(hs.refine, arg, what="HSpace.refine")
-            info["containers"].add(step.get("container", "set"))
             info["multilevel"] = info["multilevel"] or len(marks) > 1
         elif step["kind"] == "refine":
             marks = resolve_marks(ref, step["marks"], spec["max_levels"])
             if not marks:
                 continue
-            arg = {l: _container(step["container"], cs) for l, cs in marks.items()}
+            arg = {l: _container(step["container"], cs, hs, l, info) for l, cs in marks.items()}
             returned = ctx.sut(hs.refine, arg, what="HSpace.refine")
-            info["containers"].add(step["container"])
             info["multilevel"] = info["multilevel"] or len(marks) > 1
         else:
             levels = [l for l in range(ref.numlevels()) if ref.active[l] and l + 2 <= spec["max_levels"]]
